@@ -19,7 +19,8 @@ TOL = 1e-6
 META = {
     'bounds': {'quick': 'DTLZ1 m=2..3 with k in {1,2,5}; DTLZ2-4 m=2..4 (dimension m+9); ZDT1 n in {2,3,30}; bi-objective problem',
                'thorough': 'DTLZ1 m=2..5, k in {1,2,5,10}; DTLZ2-4 m=2..5; ZDT1 n in {2,3,5,30}'},
-    'stubs': ['math.sin/cos/sqrt (module globals of artap.benchmark_pareto) -> uninterpreted SIN/COS/SQRT + lemma library',
+    'stubs': ['np.asarray/np.array/float inside artap.benchmark_pareto keep proxies (object arrays; aliasing of asarray kept)',
+              'math.sin/cos/sqrt (module globals of artap.benchmark_pareto) -> uninterpreted SIN/COS/SQRT + lemma library',
               'x**100 -> uninterpreted monomial IPOW100 with unit-interval facts'],
     'assumptions': ['identities over the reals, checked to 1e-6 absolute; replays use real doubles and math functions',
                     'math.pi is the double constant; the symbolic PI used in the quadrant lemmas lies in a 1.2e-16 wide enclosure above it',
@@ -34,7 +35,8 @@ def preload():
 
 def _install():
     import artap.benchmark_pareto as BP
-    stubs.install((BP, 'sin', ops.ssin), (BP, 'cos', ops.scos), (BP, 'sqrt', ops.ssqrt))
+    stubs.install((BP, 'sin', ops.ssin), (BP, 'cos', ops.scos), (BP, 'sqrt', ops.ssqrt),
+                  (BP, 'np', stubs.numpy_shim), (BP, 'float', ops.sfloat))
     return BP
 
 
@@ -58,8 +60,19 @@ def dtlz(args):
             # variables matter): helps the solver to pick witnesses that reproduce on real doubles
             for v in x[:m - 1]:
                 ctx.assume(And(v >= 0.99, v <= 0.999))
-        f = prob.evaluate(Individual(x))
-        ctx.output('f', list(f))
+        if args.get('ndarray'):
+            # the design vector handed over as a numpy array (object array of proxies when symbolic, float array in
+            # replays): evaluate() must neither depend on the container type nor write into it
+            import numpy as np
+            vec = np.array(x, dtype=object if ctx.symbolic else float)
+            ind = Individual(vec)
+            f = prob.evaluate(ind)
+            ctx.check('design-vector-not-modified-by-evaluate', Or(*[ops.differs(a, b, 0.0) for a, b in zip(list(ind.vector), x)]))
+            f_again = prob.evaluate(ind)
+            ctx.check('same-design-same-objectives', len(f_again) != len(f) or Or(*[ops.differs(a, b, 1e-9) for a, b in zip(f, f_again)]))
+        else:
+            f = prob.evaluate(Individual(x))
+        ctx.output('f', [v for v in f])
         ctx.check('one-value-per-objective', len(f) != m)
         tail = x[n - k:]
         if fam in (1, 3):
@@ -162,6 +175,11 @@ def configs(tier):
     for fam in (1, 2, 3, 4):
         out.append({'name': 'dtlz%d-m2-two-calls' % fam, 'task': 'dtlz', 'args': {'family': fam, 'm': 2, 'k': 2 if fam == 1 else 10, 'twice': True},
                     'weight': 30, 'engine': {'validate': 5, 'first_timeout_s': 0.5}})
+    for fam in (1, 2, 3, 4):
+        for m in ((2,) if tier == 'quick' else (2, 3)):
+            out.append({'name': 'dtlz%d-m%d-ndarray-vector' % (fam, m), 'task': 'dtlz',
+                        'args': {'family': fam, 'm': m, 'k': 2 if fam == 1 else 10, 'ndarray': True},
+                        'weight': 30, 'engine': {'validate': 5, 'first_timeout_s': 0.5}})
     for m in (2, 3):
         out.append({'name': 'dtlz4-m%d-positions-near-one' % m, 'task': 'dtlz', 'args': {'family': 4, 'm': m, 'near_one': True},
                     'weight': m * 10, 'engine': {'validate': 5, 'first_timeout_s': 0.5}})
